@@ -4,7 +4,7 @@
    Names: eager = how the transport reports the end of the body (see Model.v read_slice); it only
    matters for an unterminated last line of exactly B bytes.  B = len of the bufio buffer =
    max(maxDocumentSize, 16).  classify = the JSON decoder as oracle. *)
-From C10 Require Import Model ModelMeta Spec Proofs ProofsFraming ProofsTime ProofsESTime ProofsMeta ModelV0.
+From C10 Require Import Model ModelMeta ModelSeq Spec Proofs ProofsFraming ProofsTime ProofsESTime ProofsMeta ProofsSeq ModelV0.
 
 (* For EVERY body, buffer size and transport: the request handled by the buffered reader and the
    processing loop (the model the correspondence run executes) gives exactly the line-level
@@ -86,7 +86,49 @@ Theorem C10_metas_payload_codec : forall ms f,
 Proof. exact metas_payload_codec. Qed.
 Print Assumptions C10_metas_payload_codec.
 
+(* No state leaks between requests (ownership rule, sequential part): with the re-initialisations
+   the code performs on the pooled reader and payload buffer, the outcome and the docs payload of
+   every request of a sequence are those of the request served alone on fresh objects - a function
+   of its own body only - whatever earlier requests left behind (`leave` arbitrary). *)
+Theorem C10_no_state_leak :
+  forall eager B classify leave bodies p,
+    serve_all code_resets eager B classify leave p bodies
+      = map (fun body => (run_body eager B classify body,
+                          match run_body eager B classify body with
+                          | Accepted ds => encode_docs ds
+                          | _ => []
+                          end)) bodies.
+Proof. exact serve_all_independent. Qed.
+Print Assumptions C10_no_state_leak.
+
+(* Ownership rule, concurrent part: ProcessDocuments takes its compressor (whose buffers are the
+   slices handed to StoreDocuments) with one Get and gives it back with exactly one Put on every
+   path. Then, for EVERY interleaving of request starts and finishes and every choice sync.Pool
+   makes, no compressor is held by two requests in flight and no held one is in the pool: the
+   payload a request hands to the store can only be written by that request. *)
+Theorem C10_pool_exclusive :
+  forall evs, NoDup (map snd (held (prun puts evs)) ++ pool (prun puts evs)).
+Proof. exact pool_exclusive. Qed.
+Print Assumptions C10_pool_exclusive.
+
+Theorem C10_held_distinct :
+  forall evs r1 o1 r2 o2 h1 h2 h3,
+    held (prun puts evs) = h1 ++ (r1, o1) :: h2 ++ (r2, o2) :: h3 -> o1 <> o2.
+Proof. exact held_distinct. Qed.
+Print Assumptions C10_held_distinct.
+
 (* ---- non-vacuity / documentation of the repaired defects ---- *)
+
+Example C10_pool_nonvacuous :
+  (* E finishes empty; A and B overlap (B takes the pooled object or a new one), then finish *)
+  held (prun puts [Start 0 0; Finish 0 KEmpty; Start 1 0; Start 2 0]) = [(2, 1); (1, 0)] /\
+  pool (prun puts [Start 0 0; Finish 0 KEmpty; Start 1 0; Start 2 0; Finish 1 KStored; Finish 2 KStored]) = [1; 0].
+Proof. split; vm_compute; reflexivity. Qed.
+
+Example C10_pool_v0_refuted :
+  map snd (held (prun puts_v0 [Start 0 0; Finish 0 KEmpty; Start 1 0; Start 2 0])) = [0; 0].
+Proof. exact pool_v0_refuted. Qed.
+
 
 Example C10_estime_form_nonvacuous :
   es_form [50;48;50;54;45;48;57;45;50;53;32;49;50;58;48;48;58;51;48;46;49;50;51;52;53;54;55;56;57;57]%N
